@@ -45,6 +45,17 @@ class LeafObj:
     def __repr__(self) -> str:
         return f"<leaf{self.j}>"
 
+    # value equality (like a str / tuple / dataclass stack item): all leaves are EQUAL, none identical.  The
+    # insert-vs-replace rule of elaborate_frame is about the next_inner OBJECT, never about what compares equal to it.
+    def __eq__(self, other: Any) -> bool:
+        return isinstance(other, LeafObj)
+
+    def __ne__(self, other: Any) -> bool:
+        return not isinstance(other, LeafObj)
+
+    def __hash__(self) -> int:
+        return 7
+
 
 LEAVES = [LeafObj(j) for j in range(3)]
 
